@@ -290,6 +290,10 @@ func sortedCopy(l []string) []string {
 }
 
 func main() {
+	if os.Getenv("VERIF_C17_REPRO") != "" {
+		reproSharedMigratingClaim()
+		return
+	}
 	c := kit.Parse("C17", os.Args[1:])
 	c.Meta.Rule = "real ReservationManager on guarded/unguarded op sequences (exact, snapshot after every op); real NodeClaim.CanAdd/Add/FinalizeScheduling on generated claim/pod sequences over catalogues with reservation ids shared across NodePools (exact on outcome, offerings to reserve, remaining instance types, manager maps, pinning); real Scheduler.Solve in strict and fallback mode at 1 and 4 workers (oracle on Results + manager, capacity equation); real AllocationTracker on commit/release sequences (exact) "
 	c.Meta.Corr = []string{
